@@ -9,6 +9,7 @@
 //	YIELD(            Yield( / co.Yield(       ʏ.Yield(
 //	YFROM(            YieldFrom(               ʏ.From(
 //	RETNIL            return nil               return
+//	RETBARE           return                   return        (generators with a named blank result)
 //	OVER<<x>>OVER     x                        (x).All()
 //	RETX<<e>>RETX     return e                 _ = (e); return
 //	COPKG·            "" / co. / xco.          (only in programs without a reference rendering)
@@ -120,6 +121,9 @@ func Co(neutral, prefix string, st Style) string {
 		case strings.HasPrefix(s[i:], "YFROM("):
 			b.WriteString(p + "YieldFrom(")
 			i += 6
+		case strings.HasPrefix(s[i:], "RETBARE"):
+			b.WriteString("return")
+			i += 7
 		case strings.HasPrefix(s[i:], "RETNIL"):
 			b.WriteString("return nil")
 			i += 6
@@ -169,6 +173,9 @@ func Ref(neutral, prefix string) string {
 		case strings.HasPrefix(s[i:], "YFROM("):
 			b.WriteString("ʏ.From(")
 			i += 6
+		case strings.HasPrefix(s[i:], "RETBARE"):
+			b.WriteString("return")
+			i += 7
 		case strings.HasPrefix(s[i:], "RETNIL"):
 			b.WriteString("return")
 			i += 6
